@@ -29,6 +29,7 @@ import (
 	configv1 "github.com/istio-ecosystem/authservice/config/gen/go/v1"
 	"github.com/istio-ecosystem/authservice/internal"
 	"github.com/istio-ecosystem/authservice/internal/authz"
+	inthttp "github.com/istio-ecosystem/authservice/internal/http"
 	"github.com/istio-ecosystem/authservice/internal/oidc"
 )
 
@@ -168,13 +169,16 @@ func matches(m *configv1.Match, req *envoy.CheckRequest) bool {
 func mustTriggerCheck(log telemetry.Logger, rules []*configv1.TriggerRule, req *envoy.CheckRequest) bool {
 	// If there are no trigger rules, authservice checks should be triggered for all requests.
 	// If the request path is empty, (unlikely, but the piece used to match the rules) then trigger the checks.
-	if len(rules) == 0 || len(req.GetAttributes().GetRequest().GetHttp().GetPath()) == 0 {
+	// Trigger rules are matched against the path component only: the query string and the
+	// fragment must not be able to move a request in or out of the authentication checks.
+	path, _, _ := inthttp.GetPathQueryFragment(req.GetAttributes().GetRequest().GetHttp().GetPath())
+	if len(rules) == 0 || len(path) == 0 {
 		return true
 	}
 
 	for i, rule := range rules {
 		l := log.With("rule-index", i)
-		if matchTriggerRule(l, rule, req.GetAttributes().GetRequest().GetHttp().GetPath()) {
+		if matchTriggerRule(l, rule, path) {
 			return true
 		}
 	}
